@@ -1,12 +1,38 @@
 """C07 — ALM outer-loop invariants: penalties, multiplier bounds, tolerances, accounting.
+tie 1 (translators): translate/gen_C07_alm.py regenerates coq/gen/AlmGen.v (update_penalty_weights, initialize_penalty, penalty
+  selection, termination test, exit, status chain, tolerance update, clock expressions, inner options) and coq/gen/StatsAcc.v
+  (the five accumulators) from the repo on every run; AlmGenEq.v proves them equal to the kernels of the model;
 proof: Properties_C07.v (Alm.v at the real instance, induction over the script of inner outcomes);
 correspondence: Alm.alm_run at binary64 (Corr_C07.chk07) vs the real ALMSolver<ScriptedInner> (drv_C07): whole trace of
   inner-solver arguments (y, Σ, tolerance, err_z buffer on entry, outer_iter) + final Stats + written-back Σ, y;
 oracle: the invariants of the property text evaluated directly on what the implementation handed to the scripted inner
   solver and returned (independent of the Coq model)."""
-import math, itertools
+import math, itertools, importlib.util
 from fractions import Fraction as Fr
 from vf.core import *
+
+# --------------------------------------------------------------------------- tie 1: translators G4 (AlmGen.v) and G5 (StatsAcc.v)
+
+def run_translator(ctx):
+    """regenerate coq/gen/AlmGen.v and coq/gen/StatsAcc.v from core.REPO.  Out-of-grammar is NOT a violation by itself
+    (DESIGN §2.3): the generated files then hold the reference kernels (= the hand model Alm.v), so Properties_C07.v still
+    builds, the evidence records `translator-out-of-grammar` with the offending text, and the check relies on tie 2 (the
+    whole-trace correspondence + oracle) alone for the parts that could not be translated."""
+    p = os.path.join(VERIF, "translate", "gen_C07_alm.py")
+    spec = importlib.util.spec_from_file_location("gen_C07_alm", p)
+    mod = importlib.util.module_from_spec(spec)
+    spec.loader.exec_module(mod)
+    res = mod.write(REPO, os.path.join(COQ, "gen"))
+    ctx.coverage["translator"] = {"AlmGen.v": res["AlmGen.v"], "StatsAcc.v": res["StatsAcc.v"], "detail": res["detail"],
+                                  "kernels": {k: res["kernels"][k] for k in ("g_comp_cond", "g_comp_new", "g_single_new", "g_alm_converged", "g_exit_status", "g_next_tol", "g_out_of_iter") if k in res["kernels"]},
+                                  "accumulator_fields": {k: len(v["table"]) for k, v in res["acc"].items()}}
+    for f in ("AlmGen.v", "StatsAcc.v"):
+        if res[f] != "ok":
+            ctx.coverage["translator"]["note"] = ("the C07_gen_* / C07_stats_* obligations of the out-of-grammar part are about the REFERENCE "
+                                                  "definitions in this run (they say nothing about the source); not a violation by itself")
+            ctx.log("translator: %s %s (%s) — generated file holds the REFERENCE definitions; tie 2 (correspondence + oracle) alone covers that part" % (f, res[f], res["detail"].get(f)))
+    ctx.acc_tables = {k: dict(v["table"]) for k, v in res["acc"].items()} if res["StatsAcc.v"] == "ok" else None
+    return res
 
 INF = float("inf")
 NAN = float("nan")
@@ -340,12 +366,23 @@ def oracle(ctx, c, o):
     if "exc" in o:
         V("exception", "unexpected exception: " + o["exc"]); return bad
     if c["op"] == "acc":
-        for k in ("iterations", "elapsed"):
-            if o[k] != o["exp_" + k]:
-                V("accumulator-%s-%s" % (c["which"], k), "InnerStatsAccumulator<%s>: %s is %r after adding two stats, sum is %r" % (c["which"], k, o[k], o["exp_" + k]))
-        for k in ("final_gamma", "final_psi", "final_h"):
-            if not same(unhex(o[k]), unhex(o["exp_" + k])):
-                V("accumulator-%s-%s" % (c["which"], k), "InnerStatsAccumulator<%s>: %s is not the value of the last solve" % (c["which"], k))
+        table = (getattr(ctx, "acc_tables", None) or {}).get(c["which"])
+        for f, r in o.items():
+            if not isinstance(r, dict):
+                continue
+            val = lambda t: unhex(t) if isinstance(t, str) else t
+            acc, sm, last = val(r["acc"]), val(r["sum"]), val(r["last"])
+            # property text: accumulated statistics are the sums of the inner ones (final_* report the last solve)
+            want = last if f.startswith("final_") else sm
+            if not same(float(acc), float(want)):
+                V("accumulator-%s-%s" % (c["which"], f), "InnerStatsAccumulator<%s>: %s is %r after adding two stats (sum %r, last %r)" % (c["which"], f, acc, sm, last))
+            # cross-check of the translated table (G5) on the real accumulator
+            if table is not None:
+                kind = table.get(f)
+                exp = {"Sum": sm, "Last": last, "Max": max(sm - last, last), None: None}[kind]
+                if kind is None or not same(float(acc), float(exp)):
+                    ctx.broke("translator", "StatsAcc.v vs drv_C07 (%s.%s)" % (c["which"], f),
+                              "table says %s, real accumulator gives %r (sum %r, last %r)" % (kind, acc, sm, last))
         return bad
     p, m, script = c["p"], len(c["lb"]), c["script"]
     calls = [dict(y=[unhex(t) for t in k["y"]], S=[unhex(t) for t in k["S"]], err_in=[unhex(t) for t in k["err_in"]], tol=unhex(k["tol"]),
@@ -557,7 +594,11 @@ def run(ctx):
         "single_penalty_factor => a uniform initial Σ (setConstant(fmax(Σ(0), ..)) would lower larger later components); of the tolerance invariants: 0 <= tolerance_update_factor <= 1, tolerance <= initial_tolerance, 0 <= initial_tolerance; "
         "of the multiplier bounds: max_multiplier >= 0; m = 0: the inner solver's own contract (Converged => ε <= requested tolerance) is needed for 'Converged iff'",
         "eval_proj_multipliers is the BoxConstrProblem implementation (Prox.proj_multipliers, proved in C15)",
+        "tie 1: translate/gen_C07_alm.py (restricted C++ expression/statement grammar, ~500 lines of Python) is trusted to translate what it accepts faithfully; "
+        "statement ORDER inside the loop beyond what it checks (projection first, Interrupted test before the termination test, termination before the penalty update) "
+        "and the clock are covered by tie 2 only; out-of-grammar source regions fall back to the reference kernels (recorded under coverage.translator)",
     ]
+    run_translator(ctx)
     check_properties(ctx)
     if not build_driver(ctx, "C07"):
         return
